@@ -6,7 +6,10 @@
  * global *_ext pool of the same class under that pool's lock).  All six local pools are real ABTI_mem_pool_local_pool
  * objects with a few blocks each; afterwards every block is in exactly one pool, the freed block is in a pool of its own
  * class, and no lock is left held.
- * KIND 0 tasklet descriptor  1 default ULT (stack pool)  2 ULT with user stack (descriptor pool)  3 ABTI_mem_alloc_desc */
+ * KIND 0 tasklet descriptor  1 default ULT (stack pool)  2 ULT with user stack (descriptor pool)  3 ABTI_mem_alloc_desc
+ * KIND 4 an unnamed tasklet with a pending cancellation that LAST RAN on a solver-chosen stream (none / ES0 / ES1) is popped by the
+ *        scheduler of a solver-chosen stream: the real ABTI_ythread_schedule terminates and releases it -- into the pool of the stream
+ *        that EXECUTES the release (a local pool has no lock: only its own stream may touch it), not of the stream it last ran on */
 #include <stdint.h>
 #include <stddef.h>
 #include "vr.h"
@@ -90,6 +93,18 @@ int main(void)
     y->thread.type |= ABTI_THREAD_TYPE_THREAD | ABTI_THREAD_TYPE_YIELDABLE;
     scan(); VR_ASSERT(bidx(blk) >= 0 && where[bidx(blk)] == -1, "an allocated block is in no pool");
     ABTI_mem_free_thread(&G, free_id, &y->thread);
+#elif KIND == 4
+    static ABTI_pool PLX; static ABTI_ythread SCHX; static int ran; 
+    ABTI_thread *t; int r = ABTI_mem_alloc_nythread(alloc_id, &t); blk = t; cls = 0;
+    VR_ASSERT(r == ABT_SUCCESS, "allocation from a non-empty pool succeeds");
+    __CPROVER_assume(f <= 1);                                   /* the popping agent is a stream's scheduler */
+    t->type |= ABTI_THREAD_TYPE_THREAD; t->state.val = ABT_THREAD_STATE_READY; t->request.val = ABTI_THREAD_REQ_CANCEL; t->p_keytable.val = NULL;
+    PLX.is_builtin = ABT_TRUE; t->p_pool = &PLX; ABTI_unit_init_builtin(t); t->f_thread = NULL; t->p_parent = NULL;
+    { int l = nondet_int(); __CPROVER_assume(l >= 0 && l <= 2); t->p_last_xstream = l == 0 ? NULL : l == 1 ? &ES0 : &ES1; if ((l == 1 && f == 1) || (l == 2 && f == 0)) ran = 1; }
+    scan(); VR_ASSERT(bidx(blk) >= 0 && where[bidx(blk)] == -1, "an allocated block is in no pool");
+    { ABTI_xstream *px = f == 0 ? &ES0 : &ES1; px->p_thread = &SCHX.thread; SCHX.thread.type = ABTI_THREAD_TYPE_THREAD | ABTI_THREAD_TYPE_YIELDABLE | ABTI_THREAD_TYPE_MAIN_SCHED;
+      lp_ABTI_local = (ABTI_local *)px; ABTI_ythread_schedule(&G, &px, t); }
+    if (ran) VR_WITNESS("the cancelled unit last ran on the OTHER stream");
 #else
     int r = ABTI_mem_alloc_desc(alloc_id, &blk); cls = 0;
     VR_ASSERT(r == ABT_SUCCESS, "allocation from a non-empty pool succeeds");
@@ -107,7 +122,9 @@ int main(void)
     monitor_on = 0;
     VR_ASSERT(!bad_lock, "a global (*_ext) pool is modified only while ITS OWN lock is held (two different locks around one pool do not exclude each other)");
     VR_ASSERT(G.mem_pool_desc_lock.val.val == 0 && G.mem_pool_stack_lock.val.val == 0, "global pool locks released");
+#if KIND != 4
     if (f == 2) VR_WITNESS("freed by an external thread into the global pool");
+#endif
     if (f == 1) VR_WITNESS("freed on another stream");
     return 0;
 }
